@@ -143,6 +143,8 @@ def replay_classdef(wj):
 IMPORT_CASES = [
     ("m", 0, None), ("pkg.sub", 0, None), ("m", 0, "apps/a"), ("store", 0, "apps/a/__init__"),
     ("sib", 1, "apps/a/__init__"), ("sib", 1, "modules/p/__init__"), ("x", 2, "apps/a/b/__init__"),
+    # names that are also on the interpreter's allow-list of Python modules: a pyscript module of that name is found all the same
+    ("random", 0, None), ("json", 0, "apps/a"),
 ]
 
 
@@ -171,7 +173,7 @@ def h_module_import(case):
 
         def load_file(i, gctx, path):
             def th():
-                load_calls.append((gctx, path))
+                load_calls.append((gctx, path, gctx._fields.get("auto")))
                 if eng.choose(2, "load-raises") == 0:
                     raise exc("UserException", "syntax error in module")
             return Coro(th, "load_file")
@@ -194,7 +196,11 @@ def h_module_import(case):
         ospath = PyModule("os.path", {"join": lambda i, *a: real_os.path.join(*a), "isfile": isfile, "dirname": lambda i, p: real_os.path.dirname(p)})
         stubs = {"_LOGGER": logger_stub(), "Function": Rec(fields={"hass": hass}), "os": PyModule("os", {"path": ospath}),
                  "ModuleType": lambda i, n: Rec(fields={"__dict__": {}}, name=f"module<{n}>"), "FOLDER": "pyscript",
-                 "logging": PyModule("logging", {"getLogger": lambda i, n: logger_stub()}), "LOGGER_PATH": "x"}
+                 "logging": PyModule("logging", {"getLogger": lambda i, n: logger_stub()}), "LOGGER_PATH": "x",
+                 # (not used by the function on the committed tree; provided so that a version that consults the allow-list
+                 # stays within reach: module names on the list - 'random' below - are looked up like any other name, a
+                 # pyscript module may shadow them)
+                 "ALLOWED_IMPORTS": SymPySetOf(_allowed_imports())}
         mod = Module(it, GC_PY, stubs=stubs)
         GC = mod.env.vars["GlobalContext"]
         mod.env.vars["GlobalContext"] = GlobalContext
@@ -223,6 +229,10 @@ def h_module_import(case):
                    len(created) == 1 and len(load_calls) == 1 and load_calls[0][0] is created[0]
                    and created[0]._fields["module"] is val and imports == [created[0]._fields["name"]]
                    and created[0]._fields["auto"] is True)
+                # the module's triggers and services are created WHILE its file is executed: they start at once only if the new
+                # context already has the importer's auto-start setting at that moment (a module imported at run time by a
+                # started context would otherwise keep its @service / triggers waiting for a start that never comes)
+                ob("post.auto-start-inherited-before-the-file-is-executed", load_calls[0][2] is True)
                 ob("post.every-candidate-context-was-looked-up-before-loading",
                    created[0]._fields["name"] in looked)
             else:
@@ -231,6 +241,21 @@ def h_module_import(case):
         # the candidates looked up are exactly the documented ones (distinct names, at least modules.<name> or the relative one)
         ob("post.looks-up-all-candidate-names", len(set(looked)) >= 1 and (first_loaded is not None or len(set(looked)) == len(expected_candidates(case))))
     return h
+
+
+def _allowed_imports():
+    import ast as _ast
+    from pyvc.loader import parse_file
+    tree, _ = parse_file(f"{PKG}/const.py")
+    for n in tree.body:
+        if isinstance(n, _ast.Assign) and getattr(n.targets[0], "id", None) == "ALLOWED_IMPORTS":
+            return sorted(_ast.literal_eval(n.value))
+    return []
+
+
+def SymPySetOf(xs):
+    from pyvc.interp import SymPySet
+    return SymPySet(xs)
 
 
 def expected_candidates(case):
